@@ -14,7 +14,7 @@ class Gen:
     def weights(self):
         w = dict(apply=10, ack=12, ready=12, exit=4, tick=9, advance=8, scan=5, map=2, imap=2, imapu=1,
                  feed=4, stale_ack=0.7, stale_ready=0.7, death=0.7, junk=0.5, discard=0.7, terminate_job=1.5,
-                 grow=1, shrink=1, close=0.3, tick_close=0.6, next=2.5, dup_ready=1.0, scan_block=2.5, advance_deadline=6)
+                 grow=1, shrink=1, close=0.3, tick_close=0.6, join_shutdown=0.8, next=2.5, dup_ready=1.0, scan_block=2.5, advance_deadline=6)
         w.update(self.focus)
         return w
 
@@ -187,6 +187,8 @@ class Gen:
             return ['exit', rng.choice(live), rng.choice([0, 155, 1, 70, -9, -11, -15, -6, 2])]
         if k == 'tick':
             return ['tick']
+        if k == 'join_shutdown':
+            return ['join_shutdown']
         if k == 'tick_close':
             return ['tick_close', rng.choice([0, 0, 0, 1, 1, 2])]
         if k == 'advance':
